@@ -117,6 +117,25 @@ func c16CLI(e *Env) {
 				e.Res.Violate("failing-input", "custom-qualifier-ignored", fmt.Sprintf("%s migrate diff %s %s: the tables of the written file are not qualified with it (and only it): %s", sc, t.id, custom, trunc(t.text, 400)), "Props.C16.custom_qualifier (CLI)", map[string]any{"case": sc + " migrate diff " + t.id})
 			}
 		}
+		// `schema apply --dry-run` on a schema-bound connection: the printed plan is schema-agnostic; a desired
+		// state that edits an attribute of the connected schema itself (comment / character set) cannot be planned
+		// for "any tenant schema" - the command refuses, it never falls back to a plan that names the schema
+		attr := map[string]string{"verifmysql": "&charset=latin1", "verifpg": "&comment=tenant"}[sc]
+		for _, extra := range [][]string{nil, {"--format", `{{ range .Changes.Pending }}{{ println .Cmd }}{{ end }}`}} {
+			args := append([]string{"schema", "apply", "--dry-run", "-u", bound(markerSchema, "1"), "--to", bound(markerSchema, "2")}, extra...)
+			judge(fmt.Sprintf("schema apply --dry-run %v", extra), runAtlas(e, dir, nil, args...), "TBLA", "TBLC")
+			for _, v := range []string{"1", "2"} {
+				args = append([]string{"schema", "apply", "--dry-run", "-u", bound(markerSchema, "1"), "--to", bound(markerSchema, v) + attr}, extra...)
+				o := runAtlas(e, dir, nil, args...)
+				id := fmt.Sprintf("schema apply --dry-run %v, the desired schema (variant %s) has another %s", extra, v, strings.SplitN(attr[1:], "=", 2)[0])
+				if o.Code == 0 && !strings.Contains(o.Stderr+o.Stdout, "Error:") {
+					judge(id, o)
+					e.Res.Violate("failing-input", "schema-change-in-scoped-plan", fmt.Sprintf("%s %s: not refused: %s", sc, id, trunc(o.Stdout, 300)), "Props.C16.scope_rejects (CLI)", map[string]any{"case": sc + " " + id})
+				} else {
+					e.Res.Count("cli:"+sc+":"+id, true, "cli:"+sc)
+				}
+			}
+		}
 		// a realm-bound connection: tables of the two schemas are told apart by their qualifier
 		o := runAtlas(e, dir, nil, "schema", "inspect", "-u", fmt.Sprintf("%s://fixture/?variant=1&name=%s", sc, markerSchema), "--format", `{{ sql . "  " }}`)
 		e.Res.Count("cli:"+sc+":realm", true, "cli:"+sc)
